@@ -551,6 +551,22 @@ pub fn c05_lang(out: &mut dyn Write, tier: &str, rng: &mut Rng, st: &mut Stats) 
         let text = Printer { rng, noise: false }.print(&gf);
         let line = eval_line("C05", &gf, &text, st);
         writeln!(out, "{}", line).unwrap();
+        // the same comparison with its constant spelled in digits of another script: if the syntax accepts
+        // it at all, it must be read as that number (rejecting it is fine)
+        if let GF::CntC(_, _, k) = &gf {
+            if *k < 100000 && rng.chance(1, 4) {
+                let zero = *rng.pick(&[0x660u32, 0x966, 0xe50, 0xff10, 0x1d7ce]);
+                let spelled: String = k.to_string().chars().map(|c| char::from_u32(zero + c.to_digit(10).unwrap()).unwrap()).collect();
+                let ascii = format!(" {}", k);
+                if let Some(pos) = text.rfind(&ascii) {
+                    let mut t2 = text.clone();
+                    t2.replace_range(pos + 1..pos + ascii.len(), &spelled);
+                    let line = eval_line("C05", &gf, &t2, st);
+                    writeln!(out, "{}", line.replacen("C05|eval|", "C05|evalx|", 1)).unwrap();
+                    st.hit("lang.other-script-digits");
+                }
+            }
+        }
     }
 }
 
@@ -667,6 +683,28 @@ pub fn c06(out: &mut dyn Write, tier: &str, rng: &mut Rng, st: &mut Stats) {
     let n = if tier == "thorough" { 100000 } else { 1500 };
     for i in 0..n {
         let gf = c06_formula(rng, i, st);
+        // every fifth: the fixed point sits under quantifiers that bind (some of) the variables its body uses,
+        // so the whole formula has fewer free variables than the iteration ranges over
+        let gf = if i % 5 == 4 {
+            let mut vs: Vec<String> = Vec::new();
+            fn names_of(f: &GF, acc: &mut Vec<String>) {
+                match f {
+                    GF::Var(x) => { if !acc.contains(x) { acc.push(x.clone()); } }
+                    GF::Not(g) | GF::Quant(_, _, g) | GF::Fix(_, _, g) => names_of(g, acc),
+                    GF::Bin(_, a, b) => { names_of(a, acc); names_of(b, acc); }
+                    GF::Ite(a, b, c) => { names_of(a, acc); names_of(b, acc); names_of(c, acc); }
+                    GF::CntC(_, fs, _) => { for g in fs { names_of(g, acc); } }
+                    GF::CntV(_, l, r) => { for g in l.iter().chain(r.iter()) { names_of(g, acc); } }
+                    _ => {}
+                }
+            }
+            names_of(&gf, &mut vs);
+            if let GF::Fix(x, _, _) = &gf { vs.retain(|v| v != x); }
+            let mut wrapped = gf;
+            for v in vs { if rng.chance(2, 3) { wrapped = GF::Quant(rng.chance(1, 2), vec![v], Box::new(wrapped)); } }
+            st.hit("fix-under-quantifiers");
+            wrapped
+        } else { gf };
         count_kinds(&gf, st);
         let text = Printer { rng, noise: false }.print(&gf);
         let line = eval_line("C06", &gf, &text, st);
